@@ -30,6 +30,17 @@ theorem fromFiles_ne_panic (cur : Env) : ∀ (fs : List Str) (m : Map) (s : Site
     | err e pm => intro h; cases h
     | panic s' => exact absurd rfl (hp s')
 
+theorem readFiles_ne_panic (lk : Env) : ∀ (fs : List Str) (m : Map) (s : Site), readFiles lk fs m ≠ .panic s
+  | [], m, s => by simp [readFiles]
+  | f :: fs, m, s => by
+    rw [readFiles]
+    have hp := parse_ne_panic (stripBOM f) lk
+    generalize parse (stripBOM f) lk = o at hp
+    cases o with
+    | ok env => exact readFiles_ne_panic lk fs _ s
+    | err e pm => intro h; cases h
+    | panic s' => exact absurd rfl (hp s')
+
 /-! ## D.2 values built from the interpolation grammar -/
 
 theorem value_unq_template_lemma (env : Env) (t : List Seg) (h : Template.WF t = true) :
